@@ -8,6 +8,7 @@ use std::panic::{AssertUnwindSafe, catch_unwind};
 use librqbit_utp::verif as v;
 
 mod comp_cubic;
+mod comp_mtu;
 mod comp_rtte;
 mod comp_rx;
 mod comp_segs;
@@ -26,6 +27,7 @@ const DISPATCHERS: &[fn(&[&str]) -> Option<String>] = &[
     comp_cubic::dispatch,
     comp_wire::dispatch,
     comp_vsock::dispatch,
+    comp_mtu::dispatch,
 ];
 
 fn run_consts() -> String {
